@@ -51,7 +51,22 @@ func c07Seen(b, changed string) string {
 	return b
 }
 
-var c07Behaviours = []string{"none", "trusted", "untrusted", "expired", "wrong-eku", "cv-missing", "cv-wrong-key", "cv-other-transcript", "enc-cert-first-cv-missing", "recent", "late", "enc-untrusted", "enc-expired"}
+var c07Behaviours = []string{"none", "trusted", "untrusted", "expired", "wrong-eku", "cv-missing", "cv-wrong-key", "cv-other-transcript", "enc-cert-first-cv-missing", "recent", "late", "enc-untrusted", "enc-expired",
+	// a signing certificate that does not verify next to a good encryption certificate
+	"sig-untrusted-enc-ok", "sig-expired-enc-ok", "sig-wrongeku-enc-ok"}
+
+// c07Canon: a bad signing certificate is judged the same whatever encryption certificate accompanies it.
+func c07Canon(b string) string {
+	switch b {
+	case "sig-untrusted-enc-ok":
+		return "untrusted"
+	case "sig-expired-enc-ok":
+		return "expired"
+	case "sig-wrongeku-enc-ok":
+		return "wrong-eku"
+	}
+	return b
+}
 
 func (c07) ID() string    { return "C07" }
 func (c07) Level() string { return "fault_enumeration" }
@@ -142,6 +157,7 @@ func (c07) Make(tier string, seed uint64, i int) *Case {
 
 // c07Model: does the policy allow a server to complete with this client behaviour?
 func c07Model(policy int, behaviour string, suite uint16) bool {
+	behaviour = c07Canon(behaviour)
 	ecdhe := IsECDHE(suite)
 	requested := policy >= 1 || ecdhe
 	if !requested {
@@ -173,7 +189,7 @@ func c07Model(policy int, behaviour string, suite uint16) bool {
 }
 
 func c07Cert(b string) string {
-	switch b {
+	switch c07Canon(b) {
 	case "untrusted":
 		return "client_untrusted"
 	case "expired":
@@ -256,6 +272,9 @@ func (c07) Run(c *Case, src *vs.Src) *Result {
 			h.Peer.OwnEncKey = sm2Key(base + "_enc")
 		}
 		switch p.Behaviour {
+		case "sig-untrusted-enc-ok", "sig-expired-enc-ok", "sig-wrongeku-enc-ok":
+			o.Certs = ders(base+"_sig", "client_enc")
+			h.Peer.OwnEncKey = sm2Key("client_enc")
 		case "enc-untrusted":
 			o.Certs = ders("client_sig", "client_untrusted_enc")
 			h.Peer.OwnEncKey = sm2Key("client_untrusted_enc")
@@ -368,7 +387,7 @@ func (c07) Run(c *Case, src *vs.Src) *Result {
 				r.Violate("peer-certs-unproven", sigp+" peer-certs-without-proof", "server reports %d peer certificates for behaviour %q", len(co.SrvCS.Peer), p.Behaviour)
 			}
 		}
-		if co.SrvCS.Verified > 0 && !((p.Behaviour == "trusted" && seen == "trusted") || (p.Behaviour == "late" && seen == "late") || ((p.Behaviour == "enc-untrusted" || p.Behaviour == "enc-expired") && seen == p.Behaviour) || (p.Behaviour == "wrong-eku" && (p.Policy == 5 || (p.Resumed && p.Policy1 == 5)))) {
+		if co.SrvCS.Verified > 0 && !((p.Behaviour == "trusted" && seen == "trusted") || (p.Behaviour == "late" && seen == "late") || ((p.Behaviour == "enc-untrusted" || p.Behaviour == "enc-expired") && seen == p.Behaviour) || (c07Canon(p.Behaviour) == "wrong-eku" && (p.Policy == 5 || (p.Resumed && p.Policy1 == 5)))) {
 			r.Violate("verified-chains", sigp+" verified-chains-unbacked", "server reports verified chains for behaviour %q", p.Behaviour)
 		}
 		if !co.GotApp {
